@@ -83,5 +83,8 @@ Checksum(c) == IF c = 0 THEN 0
                ELSE Checksum(c - 1) + c * (dag[c].rank + 3 * dag[c].prio + 5 * Len(Par(c))
                                             + (IF Par(c) = <<>> THEN 0 ELSE 7 * Par(c)[1])
                                             + (IF IsFin(c) THEN 11 ELSE 0))
-Emit == (EmitEvery = 1 \/ (Checksum(Len(dag)) + EmitSalt) % EmitEvery = 0) => PrintT("REPLAY " \o ToJson(Case))
+(* every DAG with three or more heads is emitted (N-way LCA fold, N-way braid): they are the
+   minority and the interesting ones; the others are sampled *)
+Emit == (EmitEvery = 1 \/ Cardinality(Frontier) >= 3 \/ (Checksum(Len(dag)) + EmitSalt) % EmitEvery = 0)
+           => PrintT("REPLAY " \o ToJson(Case))
 =================================================================================
